@@ -696,6 +696,9 @@ static void* leaver_main(void* arg) {
     if (ns_ >= 0 && nown < 64) own[nown++] = ns_;
     vf_point();
   }
+  /* every second thread also leaves a block behind whose segment was mapped directly (alignment 32 MiB): abandoned segments on the list of
+     the sub-process next to those in the arena bitmaps */
+  if (r->t % 2 == 1) { int ns_ = op_alloc_ex(A_malloc_aligned, ((size_t)1 << 20) + (size_t)vf_randn(4096), (size_t)32 << 20, 0, 0, 0); if (ns_ >= 0 && nown < 64) own[nown++] = ns_; vf_point(); }
   /* free some of the own blocks again (hole patterns), leave the rest behind */
   for (int i = 0; i < nown; i++) if (vf_randn(3) == 0 && slots[own[i]].p) { op_free_slot(own[i], FR_free); vf_point(); }
   if (hb >= 0) { hps[hb].alive = 0; hps[hb].descid = 0; }     /* released by mi_thread_done */
